@@ -38,6 +38,11 @@ def cells(tier):
                 sc = scen(pool(size), [ra, [GAC], [o]], outcomes=["ret"], ecb="plain", ccb="plain",
                           inline={"actors": [2], "at": ["w_start", "w_resume"]})
                 out.append(cell(f"inline s{size} {rn} {on}@w_start/w_resume gac", sc, MON))
+    # ... the same with end callbacks that suspend (the self-cancelling worker's own end callback must run to completion)
+    for size in [1, 2]:
+        sc = scen(pool(size), [[A("A", 2)], [GAC], [cgroup("A")]], outcomes=["ret"], ecb="slow", ccb="coro", slow_ids=[0, 1],
+                  inline={"actors": [2], "at": ["w_resume"]})
+        out.append(cell(f"inline s{size} A2 cgroup@w_resume gac slowecb", sc, MON))
     # cancellations with the optional msg argument (also of tasks that have not had their first step) before the close
     for size in [1, 2]:
         sc = scen(pool(size), [[A("A", 2)], [["cancel", rid("A", 1), {"msg": "why"}]], [GAC], [UNTIL]], outcomes=["ret"], ecb="plain", ccb="plain")
